@@ -5,6 +5,7 @@ import Driver.RecBufDrv
 import Driver.Storage
 import Driver.Views
 import Driver.Interp
+import Driver.Solve
 /-! `adept_model <family>`: line protocol on stdin/stdout, one result line per input line.
     Every import of this file must stay free of Mathlib (the driver is linked natively). -/
 open Adept Adept.Drv
@@ -17,4 +18,5 @@ def main (args : List String) : IO UInt32 := do
   | ["storage"] => runFamily StorageDrv.step {}; return 0
   | ["views"] => runFamily ViewsDrv.step {}; return 0
   | ["interp"] => runFamily InterpDrv.step (); return 0
+  | ["solve"] => runFamily SolveDrv.step (); return 0
   | _ => IO.eprintln "usage: adept_model <family>"; return 2
